@@ -134,11 +134,13 @@ pub fn next_update_epoch(id: DealID, interval: i64, earliest: ChainEpoch) -> (r:
 #[verifier::external_body]
 pub struct UpdatesScheduled { inner: BTreeMap<ChainEpoch, Vec<DealID>> }
 impl View for UpdatesScheduled { type V = Map<ChainEpoch, Seq<DealID>>; uninterp spec fn view(&self) -> Map<ChainEpoch, Seq<DealID>>; }
+/// the list scheduled for epoch e (empty when there is none)
+pub open spec fn sched_list(m: Map<ChainEpoch, Seq<DealID>>, e: ChainEpoch) -> Seq<DealID> { if m.dom().contains(e) { m[e] } else { Seq::<DealID>::empty() } }
 impl UpdatesScheduled {
     #[verifier::external_body]
     pub fn vx_at(&mut self, e: ChainEpoch) -> (r: &mut Vec<DealID>)
         ensures
-            r@ == (if old(self)@.dom().contains(e) { old(self)@[e] } else { Seq::<DealID>::empty() }),
+            r@ == sched_list(old(self)@, e),
             final(self)@ == old(self)@.insert(e, final(r)@),
     { self.inner.entry(e).or_default() }
 }
